@@ -235,3 +235,10 @@ Definition sample_or (m : pomdp) (s a s1 : nat) (u : Q) : nat * Q :=
    POMDP/SparseModel.hpp:setObservationFunction — `if (checkDifferentSmall(0.0, p)) insert(...) = p`:
    the sparse classes store only entries above 1e-6; the stored row is the model's own table *)
 Definition drop_small (v : vec) : vec := map (fun x => if eqSmall 0 x then 0 else x) v.
+
+(* src: include/AIToolbox/MDP/SparseModel.hpp:SparseModel::setTransitionFunction and
+   POMDP/SparseModel.hpp:setObservationFunction (after fix 17618b4) — the table is built on the side
+   without the small entries and re-validated: `if (!isProbability(newT)) throw invalid_argument`;
+   isProbability(SparseMatrix2D) requires every stored row to sum to one within 1e-6 *)
+Definition sparse_store_ok (tables : list mat) : bool :=
+  forallb (fun tb => forallb (fun rw => eqSmall (qsum (drop_small rw)) 1) tb) tables.
